@@ -121,6 +121,12 @@ def make(it):
     @reg('any')
     def _any(it, args, kw, n):
         v = args[0]
+        if isinstance(v, LazyIter) and v.kind == 'filter' and getattr(v.src, 'contains_fn', None) is not None:
+            # any(filter(p, S)) over a finite set known by membership: exists c in S with p(c) and c truthy
+            c = z3.Int(it.ctx.fresh('c'))
+            t = it.truth(it.call(v.fn, [SInt(c)], {}) if v.fn is not None else SInt(c))
+            t = z3.BoolVal(t) if isinstance(t, bool) else t
+            return mk_bool(z3.Exists([c], z3.And(v.src.contains_fn(SInt(c)), t, c != 0)))
         if isinstance(v, LazyIter):
             v = libattr.force_lazy(it, v)
             if isinstance(v, list):
